@@ -8,7 +8,7 @@ if [ "$R" != "/repo" ]; then sed -i "s|path = \"/repo\"|path = \"$R\"|" "$V/harn
 cd "$R" || exit 2
 if ! git diff --quiet; then echo "$R has uncommitted changes"; exit 2; fi
 out="$V/seeded/RESULTS.txt"; [ -z "$pat" ] && : > "$out"
-extra() { case "$1" in C06) echo "C07";; C07) echo "C06";; C03) echo "C10 C17";; C10) echo "C17 C03";; C02) echo "C01 C13 C18";; C13) echo "C02 C18";; C05) echo "C03";; C08) echo "C01 C04";; C16) echo "C02";; C17) echo "C10";; C15) echo "C02 C01";; C18) echo "C15";; C11) echo "C19";; *) echo "";; esac; }
+extra() { case "$1" in C06) echo "C07";; C07) echo "C06";; C03) echo "C10 C17";; C10) echo "C17 C03";; C02) echo "C01 C13 C18";; C13) echo "C02 C18";; C05) echo "C03 C17";; C12) echo "C06";; C08) echo "C01 C04";; C16) echo "C02";; C17) echo "C10";; C15) echo "C02 C01";; C18) echo "C15";; C11) echo "C19";; *) echo "";; esac; }
 for p in "$V"/seeded/C*-m*/patch.diff "$V"/seeded/self/c*.diff; do
   [ -f "$p" ] || continue
   case "$p" in */self/*) name="self/$(basename "$p" .diff)"; id="$(basename "$p" | cut -c1-3 | tr c C)";; *) name="$(basename "$(dirname "$p")")"; id="${name%%-*}";; esac
